@@ -36,7 +36,7 @@ def _single(draw):
             'method': 'eigen', 'prediv': False, 'in_hook': draw(st.booleans()), 'accum': accum, 'N': draw(st.integers(1, 5)),
             'style': draw(gens.style_strategy()), 'param_dtype': pd,
             'factor_dtype': draw(st.sampled_from([None, None, 'float32', 'float64', 'bfloat16'])),
-            'loss_scale': draw(st.sampled_from([None, None, 128.0, 1024.0, 0.5])),
+            'loss_scale': draw(st.sampled_from([None, None, 128.0, 1024.0, 0.5, {'table': [1024.0, 512.0, 2048.0]}, {'table': [8.0, 8.0, 0.25, 64.0]}])),
             'hp': {'factor_update_steps': draw(gens.table_or_const([1, 1, 2, 3])), 'inv_update_steps': draw(st.sampled_from([1, 2, 3])),
                    'damping': 0.1, 'factor_decay': draw(_decay()), 'kl_clip': 1e-2, 'lr': 0.1},
             'program': ops}
@@ -60,7 +60,7 @@ def _multi(draw):
             'style': draw(gens.style_strategy()),
             'factor_dtype': draw(st.sampled_from([None, None, 'float64', 'bfloat16'])),
             'loss_scale': draw(st.sampled_from([None, None, 256.0])),
-            'hp': {'factor_update_steps': draw(gens.table_or_const([1, 1, 2, 3])), 'inv_update_steps': 1, 'damping': 0.1,
+            'hp': {'factor_update_steps': draw(gens.table_or_const([1, 1, 2, 3])), 'inv_update_steps': draw(st.sampled_from([1, 1, 2, 3])), 'damping': 0.1,
                    'factor_decay': draw(_decay()), 'kl_clip': 1e-2, 'lr': 0.1},
             'program': ops, 'schedule': draw(st.lists(st.integers(0, 63), max_size=150)), 'flip': draw(st.booleans())}
 
@@ -84,7 +84,7 @@ class C04(Prop):
     examples = {'quick': 200, 'thorough': 700}
     shards = {'quick': 4, 'thorough': 16}
     shrink_budget_s = {'quick': 30.0, 'thorough': 180.0}
-    required_labels = {'quick': ['nontrivial=True', 'kind=single', 'kind=multi', 'loss_scale=True', 'factor_dtype=bfloat16'],
+    required_labels = {'quick': ['nontrivial=True', 'kind=single', 'kind=multi', 'loss_scale=True', 'factor_dtype=bfloat16', 'dynamic_loss_scale=True'],
                        'thorough': ['nontrivial=True', 'kind=single', 'kind=multi', 'loss_scale=True', 'factor_dtype=bfloat16', 'factor_dtype=float64']}
 
     def strategy(self, tier):
@@ -99,7 +99,7 @@ class C04(Prop):
 
     def _labels(self, case):
         return {'kind': case['kind'], 'in_hook': case['in_hook'], 'accum': case['accum'], 'factor_dtype': str(case['factor_dtype']),
-                'loss_scale': case['loss_scale'] is not None, 'has_conv': any(L['t'] == 'conv' for L in case['spec']['layers']),
+                'loss_scale': case['loss_scale'] is not None, 'dynamic_loss_scale': isinstance(case['loss_scale'], dict), 'has_conv': any(L['t'] == 'conv' for L in case['spec']['layers']),
                 'decay_kind': 'const' if not isinstance(case['hp']['factor_decay'], dict) else list(case['hp']['factor_decay'])[0]}
 
     def _single(self, case):
